@@ -15,8 +15,8 @@ FUNCTIONS = ['sexp_decode_utf8_char', 'sexp_utf8_encode_char', 'sexp_utf8_char_b
 NUMCUTS = ['sexp_read_number', 'sexp_read_float_tail', 'sexp_read_complex_tail', 'sexp_read_polar_tail', 'sexp_read_bignum', 'sexp_read_error', 'sexp_lookup_type', 'sexp_list_to_vector_op',
            'sexp_list_to_uvector_op', 'sexp_make_ratio', 'sexp_ratio_normalize', 'sexp_make_complex', 'sexp_exact_to_inexact', 'sexp_make_flonum']
 # first byte of the name/string: one query per class of the tokeniser's dispatch (the other bytes are free)
-FIRST_Q = [ord(c) for c in ".+-0a#|(;\"'{i"] + [0x0a, 0x80]
-FIRST_T = FIRST_Q + [ord(c) for c in "\\ ,`}n@1e9N~!$%&*/:<=>?^_)[]"] + [0x01, 0x09, 0x0d, 0x1f, 0x7f, 0xc3, 0xe2, 0xf0, 0xff]
+FIRST_Q = [ord(c) for c in ".+-0a#|(;\"'{i`"] + [0x0a, 0x80]
+FIRST_T = FIRST_Q + [x for x in [ord(c) for c in "\\ ,`}n@1e9N~!$%&*/:<=>?^_)[]"] + [0x01, 0x09, 0x0d, 0x1f, 0x7f, 0xc3, 0xe2, 0xf0, 0xff] if x not in FIRST_Q]
 # texts are at most 2+2N bytes: the libc copy loops (byte-wise models) get a bound just above that instead of the kit default
 SMALL_LIBC = {'memcpy.0': 12, 'memcpy.1': 12, 'memmove.0': 12, 'memmove.1': 12, 'memmove.2': 12, 'memmove.3': 12, 'memset.0': 12, 'memset.1': 12}
 RAW_LOOPS = {'sexp_read_raw.%d' % i: 2 for i in range(0, 30)}
